@@ -295,8 +295,15 @@ def run_case(case, res):
     res.evaluations += 1
     res.count("constructions_" + case["form"])
     check_state(kind, s, model, desc)
+    # a second sorted structure of the same process holds strings; asking it for a number is a foreign-typed probe (absent)
+    from windpyutils.structures.sorted import SortedSet as _SS
+    words = _SS(["alpha", "beta", "gamma"])
     for step, (op, ki, v, aux) in enumerate(case["ops"]):
         k = common.fresh(POOL[ki])     # an equal number, not the identical object
+        if step % 11 == 4:
+            gw = _g("number in a set of strings", lambda: (k in words, "beta" in words, list(words)))
+            if gw != ("ok", (False, True, ["alpha", "beta", "gamma"])):
+                raise Violation("foreign-probe", f"a SortedSet of three strings asked for {k!r} -> {gw}", {})
         desc = f"{op}({k!r})"
         if op == "add":
             g = _g(desc, lambda: s.add(k))
@@ -485,6 +492,22 @@ def run_case(case, res):
             if g != want:
                 raise Violation("lookup-value", f"m.setdefault({k!r}) -> {g}, expected {want}", {})
             model.setdefault(k, val)
+        elif op == "update" and aux % 7 == 3 and len(model) >= 2:
+            # the source of update() is produced lazily and touches the map while it is consumed (keys moved with
+            # m.update((new, m.pop(old)) for old in ...)): like dict.update, the stores and the pops interleave
+            olds = sorted(model)[:3]
+            news = [POOL[(ki + j * 3 + aux) % len(POOL)] for j in range(len(olds))]
+            desc = f"update((new, m.pop(old)) for old, new in {list(zip(olds, news))!r})"
+
+            def moving(target):
+                for o_, n_ in zip(olds, news):
+                    if o_ in target:
+                        yield n_, target.pop(o_)
+            g = _g(desc, lambda: s.update(moving(s)))
+            if g != ("ok", None):
+                raise Violation("operation-raised", f"{desc} -> {g}", {})
+            model.update(moving(model))
+            res.count("updates_from_a_source_that_changes_the_map")
         elif op == "update":
             nk = 1 + aux % 4 if aux % 6 else 16 + aux % 7          # sometimes a big batch (more keys than the pool: repeats)
             ks = [POOL[(ki + j * 5 + aux) % len(POOL)] for j in range(nk)]
